@@ -29,6 +29,11 @@ PROP = [  # (substring of the commit subject, property, what failed before the f
  ('ctr_ids_mpi used np.where', 'C14', 'ctr_ids_mpi with flat global center ids raised ValueError for unequal trajectory lengths'),
  ('striped loaders reported unstrided lengths', 'C14', 'load_h5_as_striped / load_npy_as_striped with stride > 1 returned unstrided lengths / AssertionError'),
  ('striped_array_mean asserted', 'C14', 'striped_array_mean raised AssertionError for data with negative entries'),
+ ('convergence warning raised TypeError', 'C12', 'reaching max_iter in either Prinz MLE implementation raised TypeError instead of warning'),
+ ('prior counts on a sparse matrix produced numpy.matrix', 'C04', 'builders.mle(sparse, prior=ndarray) raised ValueError (numpy.matrix counts)'),
+ ('builders.transpose failed on bsr', 'C04', 'builders.transpose on bsr matrices with blocks larger than (1,1) raised ValueError'),
+ ('truncated returned counts for integer lil/dok', 'C04', 'builders.transpose returned truncated symmetrised counts for integer lil/dok input'),
+ ('2-d reads mishandled negative', 'C05', 'RaggedArray 2-d reads: negative column start, negative steps, out-of-range row bounds, empty selections, multi-dim cells on the equal-length fast path'),
 ]
 log = subprocess.run(['git', '-C', '/repo', 'log', '--reverse', '--format=%h|%s'], capture_output=True, text=True).stdout.strip().split('\n')
 fixed = []
